@@ -127,6 +127,7 @@ type CustodyKeeper interface {
 	AddToCustodyPool(ctx sdk.Context, record custodytypes.CustodyPool)
 	GetCustodyPoolByAddress(ctx sdk.Context, address sdk.AccAddress) *custodytypes.TransactionPool
 	DropCustodyPool(ctx sdk.Context, addr sdk.AccAddress)
+	RotateCustodyVotes(ctx sdk.Context, from sdk.AccAddress, to sdk.AccAddress)
 }
 
 // TokensKeeper defines expected interface needed from tokens keeper
